@@ -1,7 +1,7 @@
 (* C05 — property theorems (parametric in the registry, in base64 and in str.isspace).
    Nothing but statements closed by `exact`, each followed by Print Assumptions. *)
 From Coq Require Import ZArith List Bool.
-From S2T Require Import Lib.PyStr C05.Model C05.Proofs C05.Roundtrip C05.Tables.
+From S2T Require Import Lib.PyStr C05.Model C05.Proofs C05.Roundtrip C05.Tables C05.Base64.
 Import ListNotations.
 Open Scope N_scope.
 
@@ -172,3 +172,27 @@ Proof.
   exists (VDict [(KStr (s "2020"), VInt 1)]). split; [reflexivity | discriminate].
 Qed.
 Print Assumptions C05_nonstring_keys_refuted.
+
+(* BASE64, ALL LENGTHS.  For the executable RFC 4648 codec of the model (tied to Python's base64 by the
+   correspondence) decoding the encoding returns the bytes — for every byte string, of every length. *)
+Theorem C05_base64_roundtrip_all_lengths :
+  forall b : bytes, forallb is_byte b = true -> b64dec (b64enc b) = Some b.
+Proof. exact b64_roundtrip. Qed.
+Print Assumptions C05_base64_roundtrip_all_lengths.
+
+(* the encoding of a buffer may be produced piecewise exactly when every piece but the last has a length
+   divisible by 3 ... *)
+Theorem C05_base64_chunks_at_multiples_of_3 :
+  forall a b : bytes, (List.length a mod 3 = 0)%nat -> b64enc (a ++ b) = b64enc a ++ b64enc b.
+Proof. exact b64enc_app3. Qed.
+Print Assumptions C05_base64_chunks_at_multiples_of_3.
+
+(* ... and REFUTED otherwise: joining the encodings of pieces of other lengths is not an encoding of the
+   whole (padding in the middle), e.g. pieces of 1 byte — or of 1 MiB, 1048576 mod 3 = 1. *)
+Theorem C05_base64_chunks_unaligned_refuted :
+  exists a b : bytes, forallb is_byte (a ++ b) = true
+    /\ b64enc a ++ b64enc b <> b64enc (a ++ b)
+    /\ b64dec (b64enc a ++ b64enc b) <> Some (a ++ b)
+    /\ (1048576 mod 3 <> 0)%N.
+Proof. exists [1], [2]. repeat split; vm_compute; discriminate. Qed.
+Print Assumptions C05_base64_chunks_unaligned_refuted.
